@@ -783,6 +783,7 @@ func (r *replicateChannelManager) waitChannel(sourceInfo *model.SourceCollection
 			case <-tick.C:
 				log.Info("wait the new replicate channel", zap.String("target_pchannel", targetInfo.PChannel))
 			case targetChannel := <-r.forwardReplicateChannel:
+				verifGate("handoff", targetChannel, sourceInfo.PChannel, targetInfo.PChannel)
 				r.channelLock.Lock()
 				var isRepeatedChannel bool
 				if channelHandler.sourceKey {
@@ -823,6 +824,7 @@ func (r *replicateChannelManager) waitChannel(sourceInfo *model.SourceCollection
 
 func (r *replicateChannelManager) forwardChannel(channelName string) {
 	go func() {
+		verifGate("fwdcheck", channelName)
 		r.channelLock.Lock()
 		forwardCnt := r.channelForwardMap[channelName]
 		shouldForward := false
